@@ -159,3 +159,25 @@ Fixpoint rdf_grouped_frames (sinks : list rdata) (s : stream) : stream * list te
 Definition api_encode_rdflib_grouped (c : stream_class) (o : soptions) (sinks : list rdata)
   : res (stream * list tev) :=
   do s <- stream_new c Rdflib o; Ok (rdf_grouped_frames sinks s).
+
+(* ---------- the *_to_frames entry points ---------- *)
+(* generic grouped_stream_to_frames: options and stream class guessed from the first sink *)
+Definition api_grouped_generic (o : option soptions) (sinks : list sdata) : res (stream * list tev) :=
+  match sinks with
+  | [] => Err StopIter                      (* nothing is created, nothing written *)
+  | first :: _ =>
+    let quads := negb (is_triples_sink (d_stmts first)) in
+    let opts := match o with Some x => x | None => guess_options Generic quads end in
+    do s <- stream_new (guess_stream_class (so_logical opts) quads) Generic opts;
+    Ok (grouped_frames sinks s)
+  end.
+
+Definition api_grouped_rdflib (o : option soptions) (sinks : list rdata) : res (stream * list tev) :=
+  match sinks with
+  | [] => Err StopIter
+  | first :: _ =>
+    let quads := match rd_kind first with RDataset => true | _ => false end in
+    let opts := match o with Some x => x | None => guess_options Rdflib quads end in
+    do s <- stream_new (guess_stream_class (so_logical opts) quads) Rdflib opts;
+    Ok (rdf_grouped_frames sinks s)
+  end.
